@@ -119,8 +119,17 @@ def install_watches(prog):
                  datain_alloclen=locs.get("datain_alloclen"), opcode=locs.get("opcode"),
                  where=frame.where(node) if frame else None)
 
-    I.watch[CMD_MOD + ":SCSICommand.build_cdb"] = w_build_cdb
-    I.watch[CMD_MOD + ":SCSICommand.__init__"] = w_base_init
+    # SCSICommand's build_cdb / __init__, in whichever class of its hierarchy they are written
+    names = {"build_cdb": CMD_MOD + ":SCSICommand.build_cdb", "__init__": CMD_MOD + ":SCSICommand.__init__"}
+    mod = I.modules.get(CMD_MOD)
+    base = mod.env.get("SCSICommand") if mod is not None else None
+    if isinstance(base, ClassVal):
+        for n in list(names):
+            f, owner = base.lookup(n)
+            if isinstance(f, FuncVal):
+                names[n] = f.qualname
+    I.watch[names["build_cdb"]] = w_build_cdb
+    I.watch[names["__init__"]] = w_base_init
 
 
 def construct_all(prog, key, entry, sets=None, max_combos=600, extra_kwargs=None, args_override=None):
